@@ -597,6 +597,24 @@ func withRaceCheck(fn worldFn, out *Output) worldFn {
 				}
 				continue
 			}
+			if job.Prop == "C15" {
+				// C15 does not state race freedom; what it rests on is that spawn/despawn and the broadcast
+				// take the same lock around the outputs map. Only an unsynchronised access to that map, with
+				// both sides inside the fan-out, counts; anything else is recorded and ignored.
+				fan := strings.Count(rep.Sig, "DynamicFanOut") >= 2
+				mapOp := strings.Contains(rep.Text, "runtime.map") || strings.Contains(rep.Text, "simrt.MapKeys")
+				if fan && mapOp {
+					if ro.Vio == nil {
+						ro.Vio = &Vio{Props: []string{"C15"}, Clause: "fanout_outputs_race", Sig: rep.Sig, Detail: "unsynchronised access to the fan-out's outputs map: " + rep.Sig + "\n" + shorten(rep.Text, 1800)}
+						if ro.Replay == nil {
+							ro.Replay = &Replay{World: job.World, Prop: job.Prop, Seed: seed, Tier: job.Tier}
+						}
+					}
+				} else {
+					out.Probes["race_report_outside_claim: "+rep.Sig]++
+				}
+				continue
+			}
 			if ro.Vio == nil {
 				ro.Vio = &Vio{Props: []string{"C16"}, Clause: "data_race", Sig: rep.Sig, Detail: "race detector (scheduler synchronisation hidden): " + rep.Sig + "\n" + shorten(rep.Text, 1800)}
 				if ro.Replay == nil {
